@@ -159,7 +159,8 @@ def run(ctx):
     c09.snapshot_diff(ctx, "core", S.T["core"], S.T)
     # the number <-> enumerant conversions the typed requests rest on (`from_u32` returns the enumerant OF that number): C08's legs
     import c08
-    c08.run(ctx)
+    import common as _common
+    _common.composed(ctx, "C08-conversions", lambda: c08.run(ctx))
     rp.close()
     ctx.validated = rp.count
     hs = ["k_string_pack"] if ctx.tier == "thorough" else ["k_string_pack_small"]
